@@ -27,14 +27,16 @@ Inductive lst := LPoints | LStationary | LTPoints.
 
 Inductive guard :=
 | GParFinite (p : nat)      (* if self.<p> != np.inf *)
-| GHasV.                    (* if self.v is not None *)
+| GHasV                     (* if self.v is not None *)
+| GNonEmpty (l : lst).      (* if N > 0  with N = len(<list l>) : guards the PSDMatrix of an LMI block *)
 
 Inductive plan_item :=
 | Pairs (l1 l2 : lst) (cname : string) (f : cterm) (symmetry : bool)
 | Singles (l : lst) (cname : string) (f : cterm)
 | Guarded (g : guard) (item : plan_item)
 | AutoStationary             (* if self.list_of_stationary_points == list(): self.stationary_point() *)
-| LMI (l : lst) (entry : xterm)
+| LMI (l : lst) (entry : xterm)  (* the N x N matrix over list l, appended whatever N (0 x 0 for an empty list);
+                                    the linear operator classes guard it: Guarded (GNonEmpty l) (LMI l entry) *)
 | BlockPairs (cprefix : string) (f : cterm).
                              (* BlockSmoothConvexFunction: for i: for j: if point_i is point_j: 0 else for k: f *)
 
@@ -179,6 +181,7 @@ Definition guard_true (st : fstate) (g : guard) : bool :=
   match g with
   | GParFinite p => negb (f_inf st p)
   | GHasV => match f_v st with Some _ => true | None => false end
+  | GNonEmpty l => match get_list st l with [] => false | _ => true end
   end.
 
 (** Function.stationary_point() : fresh leaf point, empty gradient, fresh leaf value; the new
